@@ -300,6 +300,10 @@ func (vc *VC) loopHead(fr *Frame, li *loopInfo, cur *State, ins []edgeState) *St
 				}
 				nv, _ := vc.symbolic(c.T, "lp."+c.Name)
 				vc.assume(st, vc.wf(st, nv))
+				if old.K == KSlice && old.Own && selfAppendOnly(a, li) {
+					// x = append(x, ...) is the only way the loop changes x: it stays exclusively owned
+					nv.Own = true
+				}
 				st.cells[c] = nv
 			}
 		}
@@ -797,7 +801,13 @@ func (vc *VC) execBlock(fr *Frame, b *ssa.BasicBlock, st *State, in map[*ssa.Bas
 			fr.regs[phi] = vc.mergeVals(pcs, vals, phi.Name())
 		}
 	}
+	fired := map[*Clause]bool{}
 	for _, ins := range b.Instrs {
+		if fr.con != nil && len(fr.con.Asserts) > 0 {
+			if _, dbg := ins.(*ssa.DebugRef); !dbg {
+				vc.inlineAsserts(fr, st, ins, fired)
+			}
+		}
 		switch ins := ins.(type) {
 		case *ssa.Phi, *ssa.DebugRef:
 			continue
@@ -870,6 +880,19 @@ func (vc *VC) execInstr(fr *Frame, ins ssa.Instruction, st *State) {
 	switch ins := ins.(type) {
 	case *ssa.Alloc:
 		et := ins.Type().Underlying().(*types.Pointer).Elem()
+		if at, isArr := et.Underlying().(*types.Array); isArr && at.Len() <= 16 && appendOperandOnly(ins) {
+			// `append(x, a, b)`: the hidden [N]T array is kept as N explicit element values
+			vc.cellN++
+			c := &Cell{Name: ins.Comment, T: et, id: vc.cellN}
+			fr.cellOf[ins] = c
+			lst := Val{K: KTuple, T: et}
+			for i := int64(0); i < at.Len(); i++ {
+				lst.F = append(lst.F, vc.zero(at.Elem()))
+			}
+			st.cells[c] = lst
+			fr.regs[ins] = Val{K: KPtr, T: ins.Type(), L: &Loc{Kind: locCell, Cell: c, Base: et}}
+			return
+		}
 		if !allocEscapes(ins) {
 			vc.cellN++
 			c := &Cell{Name: ins.Comment, T: et, id: vc.cellN}
@@ -889,7 +912,7 @@ func (vc *VC) execInstr(fr *Frame, ins ssa.Instruction, st *State) {
 				inner := arraySort(sortIdx, lf.sort)
 				hs := arraySort(sortRef, inner)
 				h := vc.heapGet(st, hn, hs)
-				vc.heapSet(st, hn, hs, vc.sc.define("h", hs, store(h, r, fmt.Sprintf("((as const %s) %s)", inner, vc.zeroLeaf(lf)))))
+				vc.heapSet(st, hn, hs, vc.sc.define("h", hs, store(h, r, vc.sc.constArray(inner, vc.zeroLeaf(lf)))))
 			}
 			fr.regs[ins] = Val{K: KPtr, T: ins.Type(), L: l}
 			return
@@ -989,6 +1012,14 @@ func (vc *VC) execInstr(fr *Frame, ins ssa.Instruction, st *State) {
 			fr.regs[ins] = bad(ins.Type(), "indexaddr: "+x.Why+i.Why)
 			return
 		}
+		if x.K == KPtr && x.L != nil && x.L.Kind == locCell && len(x.L.Path) == 0 {
+			if cv, ok := st.cells[x.L.Cell]; ok && cv.K == KTuple {
+				if k, ok := isSmallLit(toIdx(i), 15); ok && int(k) < len(cv.F) {
+					fr.regs[ins] = Val{K: KPtr, T: ins.Type(), L: x.L.extend(pathElem{Field: int(k)})}
+					return
+				}
+			}
+		}
 		if x.K == KPtr && x.L != nil {
 			vc.nilCheck(st, x.L, pos, vc.srcText(fn, ins))
 		}
@@ -1032,6 +1063,13 @@ func (vc *VC) execInstr(fr *Frame, ins ssa.Instruction, st *State) {
 		if ins.Max != nil {
 			v := vc.value(fr, ins.Max)
 			mx = &v
+		}
+		if x.K == KPtr && x.L != nil && x.L.Kind == locCell && len(x.L.Path) == 0 && lo == nil && hi == nil {
+			if cv, ok := st.cells[x.L.Cell]; ok && cv.K == KTuple {
+				n := i64(int64(len(cv.F)))
+				fr.regs[ins] = Val{K: KSlice, T: ins.Type(), Sl: [4]string{"-1", i64(0), n, n}, Lit: cv.F}
+				return
+			}
 		}
 		if x.K == KPtr && x.L != nil {
 			vc.nilCheck(st, x.L, pos, vc.srcText(fn, ins))
@@ -1281,4 +1319,117 @@ func (vc *VC) assumeTypeInv(st *State, l *Loc) {
 		vc.assume(st, and(vc.wf(st, buf), sx("bvsle", i64(0), off.S), sx("bvsle", off.S, buf.Sl[2])))
 		vc.eng.usedTrusted["type invariant bytes.Buffer: 0 <= off <= len(buf)"] = true
 	}
+}
+
+// inlineAsserts: `assert at "text": e` / `assume at "text": e` clauses fire before the first
+// instruction (per basic block) whose source line contains the text.
+func (vc *VC) inlineAsserts(fr *Frame, st *State, ins ssa.Instruction, fired map[*Clause]bool) {
+	if !ins.Pos().IsValid() {
+		return
+	}
+	pos := vc.pos(ins.Pos())
+	line := vc.eng.lineText(pos)
+	for i, cl := range fr.con.Asserts {
+		if fired[cl] || !strings.Contains(line, cl.Match) {
+			continue
+		}
+		fired[cl] = true
+		env := vc.localEnv(fr, st)
+		t := env.evalBool(cl.Expr)
+		if env.err != nil {
+			vc.unsupported("%s at %q: %v", cl.Kind, cl.Match, env.err)
+			continue
+		}
+		if cl.Kind == "assert" {
+			vc.oblige(st, "assert", fmt.Sprintf("%s#assert%d", funcKey(fr.fn), i+1), "assertion at \""+cl.Match+"\": "+cl.Src, pos, t)
+			vc.assume(st, t)
+		} else {
+			vc.eng.usedTrusted["assume in "+funcKey(fr.fn)+" at \""+cl.Match+"\": "+cl.Src] = true
+			vc.assume(st, t)
+		}
+	}
+}
+
+// selfAppendOnly: every store to the local inside the loop stores the result of append(<load of the same local>, ...).
+func selfAppendOnly(a *ssa.Alloc, li *loopInfo) bool {
+	refs := a.Referrers()
+	if refs == nil {
+		return false
+	}
+	for _, r := range *refs {
+		st, ok := r.(*ssa.Store)
+		if !ok || st.Addr != a || !li.body[st.Block()] {
+			continue
+		}
+		v := st.Val
+		if ct, ok := v.(*ssa.ChangeType); ok {
+			v = ct.X
+		}
+		call, ok := v.(*ssa.Call)
+		if !ok {
+			return false
+		}
+		b, ok := call.Call.Value.(*ssa.Builtin)
+		if !ok || b.Name() != "append" {
+			return false
+		}
+		ld, ok := call.Call.Args[0].(*ssa.UnOp)
+		if !ok || ld.X != a || !consumedByAppend(ld) {
+			return false
+		}
+	}
+	return true
+}
+
+// appendOperandOnly: a `new [N]T` whose elements are initialised by constant-index stores and
+// which is sliced exactly once, the slice being used only as the variadic operand of append.
+func appendOperandOnly(a *ssa.Alloc) bool {
+	refs := a.Referrers()
+	if refs == nil {
+		return false
+	}
+	slices := 0
+	for _, r := range *refs {
+		switch r := r.(type) {
+		case *ssa.DebugRef:
+		case *ssa.IndexAddr:
+			if _, isConst := r.Index.(*ssa.Const); !isConst {
+				return false
+			}
+			rr := r.Referrers()
+			if rr == nil {
+				return false
+			}
+			for _, u := range *rr {
+				if st, ok := u.(*ssa.Store); !ok || st.Addr != r {
+					return false
+				}
+			}
+		case *ssa.Slice:
+			if r.Low != nil || r.High != nil || r.Max != nil {
+				return false
+			}
+			slices++
+			sr := r.Referrers()
+			if sr == nil {
+				return false
+			}
+			for _, u := range *sr {
+				if _, dbg := u.(*ssa.DebugRef); dbg {
+					continue
+				}
+				c, ok := u.(*ssa.Call)
+				if !ok {
+					return false
+				}
+				b, ok := c.Call.Value.(*ssa.Builtin)
+				if !ok || b.Name() != "append" || len(c.Call.Args) != 2 || c.Call.Args[1] != r || c.Call.Args[0] == r {
+					return false
+				}
+			}
+		default:
+			return false
+		}
+	}
+	return slices == 1
 }
